@@ -140,7 +140,8 @@ def coq_make(targets, timeout=3000, clean=False):
                 f = os.path.join(cq, t[:-3] + ext)
                 if os.path.exists(f):
                     os.remove(f)
-    rc, out = sh(["make", "-C", cq, "-k", "-j%d" % NCPU] + list(targets), timeout=timeout)
+    # every coqc call under its own time limit: one diverging file must not stall the build
+    rc, out = sh(["make", "-C", cq, "-k", "-j%d" % NCPU, "COQC=timeout 900 coqc"] + list(targets), timeout=timeout)
     return rc, out
 
 
